@@ -18,6 +18,7 @@ type call = { conn : int; mid : int option; late : bool; s : char; f : char }
 type d = {
   m : state;
   cmap : int option list;      (* script connection -> model connection *)
+  readn : int list;            (* script connection -> replies the client's reader task has taken off the wire *)
   dropped : int list;          (* script connections dropped by the client *)
   released : int list;         (* script call numbers whose gate is open *)
   all_released : bool;
@@ -31,7 +32,7 @@ type d = {
   tmo : string list;           (* reversed *)
 }
 
-let d0 = { m = init; cmap = []; dropped = []; released = []; all_released = false; calls = []; stops = []; hh = 1;
+let d0 = { m = init; cmap = []; readn = []; dropped = []; released = []; all_released = false; calls = []; stops = []; hh = 1;
            watchers = 0; have_watch = false; sig_logged = false; stopped_logged = false; tmo = [] }
 
 let apply m a = let (m', o) = step m a in (m', o)
@@ -86,6 +87,17 @@ and succs_all (st : d) : d list =
             | TRet -> try_act (Conn (ci, CEnqueue k)) (fun s -> s)
           end) x.c_tasks)
     st.m.s_conns;
+  (* the client's reader task takes the next reply off the wire (it lags behind the server's write) *)
+  List.iteri (fun j mc ->
+      match mc with
+      | Some i when not (List.mem j st.dropped) ->
+        (match List.nth_opt st.m.s_conns i with
+         | Some x ->
+           let r = List.nth st.readn j in
+           if r < List.length x.c_wire then
+             push { st with readn = List.mapi (fun j' v -> if j' = j then v + 1 else v) st.readn }
+         | None -> ())
+      | _ -> ()) st.cmap;
   try_act AcceptSeeStop (fun s -> s);
   try_act AcceptDone (fun s -> s);
   try_act StoppedResolves (fun s -> s);
@@ -124,6 +136,20 @@ let dedup (l : d list) : d list =
 let model_conn st c = match List.nth_opt st.cmap c with Some (Some i) -> Some i | _ -> None
 let get_conn st i = List.nth_opt st.m.s_conns i
 
+(* has the client read the reply to model id `id` on script connection c? *)
+let has_read st c id =
+  match model_conn st c with
+  | Some i ->
+    (match get_conn st i with
+     | Some x ->
+       let r = List.nth st.readn c in
+       let rec go n = function
+         | [] -> false
+         | k :: rest -> if n >= r then false else if int_of_n k = id then true else go (n + 1) rest in
+       go 0 x.c_wire
+     | None -> false)
+  | None -> false
+
 let wait op (cond : d -> bool) (cl : (d * bool) list) : d list =
   List.filter_map (fun (s, quiet) ->
       if cond s then Some s
@@ -142,8 +168,8 @@ let do_op (op : string) (sts : d list) : d list =
   | "cw" | "ch" ->
     each (fun st ->
         let (m', o) = apply st.m (Connect (if op = "cw" then KWs else KHttp)) in
-        if ok o then { st with m = m'; cmap = st.cmap @ [Some (List.length st.m.s_conns)] }
-        else { st with cmap = st.cmap @ [None] })
+        if ok o then { st with m = m'; cmap = st.cmap @ [Some (List.length st.m.s_conns)]; readn = st.readn @ [0] }
+        else { st with cmap = st.cmap @ [None]; readn = st.readn @ [0] })
   | "S" ->
     each (fun st ->
         if st.hh = 0 then { st with stops = "nohandle" :: st.stops }
@@ -187,10 +213,7 @@ let do_op (op : string) (sts : d list) : d list =
      | 'y' ->
        dedup (wait op (fun s ->
            match List.nth_opt s.calls n with
-           | Some { conn; mid = Some id; _ } ->
-             (match model_conn s conn with
-              | Some i -> (match get_conn s i with Some x -> List.exists (fun k -> int_of_n k = id) x.c_wire | None -> false)
-              | None -> false)
+           | Some { conn; mid = Some id; _ } -> has_read s conn id
            | _ -> false) cl)
      | 'r' -> each (fun st -> if List.mem n st.released then st else { st with released = List.sort compare (n :: st.released) })
      | 'd' ->
@@ -220,10 +243,7 @@ let facts (st : d) : string =
         | None -> "c"
         | Some i -> (match get_conn st i with Some x when x.c_phase = PDone -> "c" | _ -> "o")) st.cmap in
   let calls = List.map (fun c ->
-      let r = match c.mid, model_conn st c.conn with
-        | Some id, Some i ->
-          (match get_conn st i with Some x when List.exists (fun k -> int_of_n k = id) x.c_wire -> 'R' | _ -> '-')
-        | _ -> '-' in
+      let r = match c.mid with Some id when has_read st c.conn id -> 'R' | _ -> '-' in
       Printf.sprintf "%c%c%c%s" c.s c.f r (if c.late then "L" else "")) st.calls in
   Printf.sprintf "stops=%s;stopped=%s;conns=%s;calls=%s;to=%s" (join (List.rev st.stops)) stopped (join conns) (join calls)
     (join (List.rev st.tmo))
